@@ -1,23 +1,73 @@
 package main
 
 import (
+	"context"
+	"errors"
 	"fmt"
 	"sort"
 	"strings"
+	"sync"
+	"time"
 
 	"github.com/streamingfast/bstream"
 	"github.com/streamingfast/bstream/hub"
+	pbbstream "github.com/streamingfast/bstream/pb/sf/bstream/v1"
+	"google.golang.org/grpc"
 )
+
+// fakeDgrpc is the dgrpc server the hub's BlockstreamServer registers itself with (never launched)
+type fakeDgrpc struct{ gs *grpc.Server }
+
+func (f *fakeDgrpc) RegisterService(fn func(gs grpc.ServiceRegistrar)) { fn(f.gs) }
+func (f *fakeDgrpc) Launch(string)                                     {}
+func (f *fakeDgrpc) ServiceRegistrar() grpc.ServiceRegistrar           { return f.gs }
+func (f *fakeDgrpc) OnTerminated(func(error))                          {}
+func (f *fakeDgrpc) Shutdown(time.Duration)                            {}
+
+// capStream is an in-memory BlockStream_BlocksServer: it records what is sent and ends the stream (by failing the
+// send) when the sentinel block arrives — the block pushed live right after the request, so that the end of the
+// stream does not depend on timing
+type capStream struct {
+	grpc.ServerStream
+	mu       sync.Mutex
+	seen     []*pbbstream.Block
+	sentinel string
+	first    chan struct{}
+	once     sync.Once
+}
+
+func (s *capStream) Context() context.Context { return context.Background() }
+func (s *capStream) Send(b *pbbstream.Block) error {
+	s.mu.Lock()
+	defer s.mu.Unlock()
+	if b.Id == s.sentinel {
+		return errors.New("sentinel reached")
+	}
+	s.seen = append(s.seen, b)
+	s.once.Do(func() { close(s.first) })
+	return nil
+}
 
 // suite hubready (C09, readiness): ForkableHub.bootstrap driven block by block.
 //   case n hubready <kept> <fsb> <nofiles 0|1>
 //   file <id:parent:num:lib>         one-block files the bootstrap source replays (from the start block it is given)
 //   op live <id:parent:num:lib>      a block arriving from the live source
 //   impl ready <0|1> head <num>
+//   op bsblocks <burst>              BlockstreamServer.Blocks with that burst on the (ready) hub; the next `op live` is the
+//                                    sentinel: a block extending the head, pushed once the burst has started to arrive
+//   impl bs <id:num,…>  impl bsret <ok|nosrc|hang>
 
 func init() {
 	suites["hubready"] = suiteHubReady
 	replaySuites["hubready"] = replayHubReady
+}
+
+var bsTimeouts int
+
+type hrOp struct {
+	bs    bool
+	burst int64
+	blk   TBlock
 }
 
 type hrCase struct {
@@ -25,7 +75,9 @@ type hrCase struct {
 	fsb     uint64
 	nofiles bool
 	files   []TBlock
-	live    []TBlock
+	live    []TBlock // generation: the live blocks; then `bursts` requests follow
+	bursts  []int64
+	ops     []hrOp // replay: the recorded op sequence
 }
 
 func runHubReadyCase(o *Out, c hrCase) {
@@ -55,7 +107,7 @@ func runHubReadyCase(o *Out, c hrCase) {
 	fh := hub.NewForkableHub(lsf.NewSource, factory, c.kept)
 	go fh.Run()
 	ls := <-lsf.Created
-	for _, b := range c.live {
+	live := func(b TBlock) {
 		o.Op("live %s", blk4(b))
 		res := safely(func() string {
 			ls.Push(b.pb(), nil)
@@ -66,6 +118,110 @@ func runHubReadyCase(o *Out, c hrCase) {
 			return fmt.Sprintf("ready %d head %d lowest %d", b2i(fh.IsReady()), fh.HeadNum(), low)
 		})
 		o.Impl("%s", res)
+	}
+	var bsrv *hub.BlockstreamServer
+	nsent := 0
+	// bsblocks: sentinel == nil lets the runner build it from the hub's head
+	bsblocks := func(burst int64, sentinel *TBlock) {
+		if !fh.IsReady() || bsTimeouts >= 3 {
+			return // (after three requests that sent nothing at all, no further request is made in this run: each costs seconds)
+		}
+		headNum, headID, _, headLib, err := fh.HeadInfo()
+		if err != nil {
+			return
+		}
+		if burst < -1 && uint64(-burst) > headNum {
+			return // an empty snapshot: there is no first block to synchronise the sentinel on
+		}
+		if sentinel == nil {
+			nsent++
+			sentinel = &TBlock{ID: fmt.Sprintf("%ds%d", headNum+1, nsent), Parent: headID, Num: headNum + 1, Lib: headLib}
+		}
+		if bsrv == nil {
+			bsrv = fh.NewBlockstreamServer(&fakeDgrpc{gs: grpc.NewServer()})
+		}
+		o.Op("bsblocks %d", burst)
+		st := &capStream{sentinel: sentinel.ID, first: make(chan struct{})}
+		ret := make(chan error, 1)
+		go func() {
+			defer func() {
+				if recover() != nil {
+					ret <- errors.New("panic")
+				}
+			}()
+			ret <- bsrv.Blocks(&pbbstream.BlockRequest{Burst: burst, Requester: "verif"}, st)
+		}()
+		outcome := ""
+		select {
+		case <-st.first:
+		case <-ret:
+			outcome = "nosrc" // returned before anything was sent: no source for the request
+		case <-time.After(3 * time.Second): // nothing arrives (an empty snapshot): the sentinel will end the stream
+			bsTimeouts++
+		}
+		report := func() {
+			st.mu.Lock()
+			got := append([]*pbbstream.Block(nil), st.seen...)
+			st.mu.Unlock()
+			sort.SliceStable(got, func(i, j int) bool { // ties in height by id; the height order itself is the implementation's
+				if got[i].Number != got[j].Number {
+					return false
+				}
+				return got[i].Id < got[j].Id
+			})
+			var parts []string
+			for _, b := range got {
+				parts = append(parts, fmt.Sprintf("%s:%d", tok(b.Id), b.Number))
+			}
+			l := "-"
+			if len(parts) > 0 {
+				l = strings.Join(parts, ",")
+			}
+			o.Impl("bs %s", l)
+			o.Impl("bsret %s", outcome)
+		}
+		if outcome == "nosrc" {
+			report()
+			live(*sentinel)
+			return
+		}
+		// push the sentinel; its own op/impl lines are printed after the request's
+		ls.Push(sentinel.pb(), nil)
+		select {
+		case <-ret:
+			outcome = "ok"
+		case <-time.After(5 * time.Second):
+			outcome = "hang"
+		}
+		report()
+		o.Op("live %s", blk4(*sentinel))
+		low := uint64(0)
+		if fh.IsReady() {
+			low = fh.LowestBlockNum()
+		}
+		o.Impl("ready %d head %d lowest %d", b2i(fh.IsReady()), fh.HeadNum(), low)
+	}
+	if c.ops != nil {
+		for i := 0; i < len(c.ops); i++ {
+			op := c.ops[i]
+			if !op.bs {
+				live(op.blk)
+				continue
+			}
+			if i+1 < len(c.ops) && !c.ops[i+1].bs {
+				bsblocks(op.burst, &c.ops[i+1].blk)
+				i++
+			} else {
+				bsblocks(op.burst, nil)
+			}
+		}
+	} else {
+		for _, b := range c.live {
+			live(b)
+		}
+		for _, burst := range c.bursts {
+			bsblocks(burst, nil)
+		}
 	}
 	o.End()
 	fh.Shutdown(nil)
@@ -111,6 +267,34 @@ func suiteHubReady(o *Out, r *Rng, n int, tier string) {
 		if c.nofiles {
 			o.Stat("hubready.no_one_block_source", 1)
 		}
+		// requests to the hub's block stream server once the history is in: bursts around the window, beyond the head,
+		// huge, "from the LIB" (-1) and "from block n" (-n, n within the chain: an empty snapshot has no first block to wait for)
+		top := all[len(all)-1].Num
+		for k := r.Intn(4); k > 0; k-- {
+			var burst int64
+			switch r.Intn(7) {
+			case 0:
+				burst = int64(r.Intn(4))
+			case 1:
+				burst = int64(r.Intn(int(top) + 3))
+			case 2:
+				burst = int64(top) + int64(r.Intn(6))
+			case 3:
+				burst = int64(1) << uint(20+r.Intn(42))
+			case 4:
+				burst = -1
+			default:
+				burst = -int64(2 + r.Intn(int(top)))
+				if uint64(-burst) > rootNum+2 && r.Intn(2) == 0 {
+					burst = -int64(rootNum + uint64(r.Intn(int(top-rootNum)+1)))
+					if burst > -2 {
+						burst = -2
+					}
+				}
+			}
+			c.bursts = append(c.bursts, burst)
+			o.Stat("hubready.blockstream_requests", 1)
+		}
 		runHubReadyCase(o, c)
 	}
 }
@@ -142,7 +326,12 @@ func replayHubReady(o *Out, lines []string) {
 		case "op":
 			if len(ws) >= 3 && ws[1] == "live" {
 				bu := parseBundleLine([]string{"bundle", "0", ws[2]})
-				c.live = append(c.live, bu.blocks[0])
+				c.ops = append(c.ops, hrOp{blk: bu.blocks[0]})
+			}
+			if len(ws) >= 3 && ws[1] == "bsblocks" {
+				var burst int64
+				fmt.Sscan(ws[2], &burst)
+				c.ops = append(c.ops, hrOp{bs: true, burst: burst})
 			}
 		case "end":
 			flush()
